@@ -24,7 +24,7 @@ Vocabulary:
 
 **VoxelNeuron.** Its arithmetic is a different design: the integer voxel indices cannot be scaled, so `x * k`
 multiplies the *units* (the voxel size), the offset and the connectors.  The consistency that holds is
-`voxel_scale_world`; physical invariance and `convert_units` do **not** hold for voxels
+`voxel_scale_world` (unconditionally since navis 881c0e3); physical invariance and `convert_units` do **not** hold for voxels
 (`voxel_scale_not_invariant`, `voxel_convert_units_wrong`) — the harness reports these as known findings.
 -/
 set_option linter.unusedSimpArgs false
@@ -152,19 +152,18 @@ theorem connectors_follow_shift {n m : Neuron} {o : Factor} :
     · rw [if_neg hk, worldPts_nonvoxel (by simpa using hk), worldPts_nonvoxel hk]
       exact ⟨rfl, rfl, rfl, rfl, rfl, rfl⟩
 
-/-- **voxel_scale_world.** VoxelNeuron: as long as `to_compact` keeps the prefix (`backTo`), world
-coordinates `index × voxel size + offset` and connectors are multiplied by the same per-axis factor. -/
+/-- **voxel_scale_world.** VoxelNeuron: world coordinates `index × voxel size + offset` and connectors are multiplied
+by the same per-axis factor, and the voxel size keeps its SI prefix (since navis 881c0e3 the scaled voxel size is no
+longer passed through `to_compact`, which used to re-express it in a new prefix while offset and connectors stayed in
+the old one: the statement then needed the hypothesis that the prefix is kept). -/
 theorem voxel_scale_world {n m : Neuron} {f : Factor} {p : Int} (hk : n.kind = .voxel)
-    (hp : backTo n.units.base p) (h : mul n f p = some m) :
-    worldPts m = (worldPts n).map (fun c => c.mul f.xyz) ∧ m.conns = n.conns.map (fun c => c.mul f.xyz) := by
+    (h : mul n f p = some m) :
+    worldPts m = (worldPts n).map (fun c => c.mul f.xyz) ∧ m.conns = n.conns.map (fun c => c.mul f.xyz) ∧
+      m.units.base = n.units.base := by
   obtain ⟨_, rfl⟩ := mul_voxel hk h
-  have hu : (⟨n.units.mag.mul f.xyz, n.units.base⟩ : Units).compact p = ⟨n.units.mag.mul f.xyz, n.units.base⟩ := by
-    cases hb : n.units.base with
-    | dimless => exact compact_dimless _ _ (by simp [hb])
-    | metre e => simp only [backTo, hb] at hp; subst hp; exact compact_same _ _ (by simp [hb])
   rw [worldPts_voxel (by simpa using hk), worldPts_voxel hk]
-  refine ⟨?_, rfl⟩
-  simp only [hu, List.map_map]
+  refine ⟨?_, rfl, rfl⟩
+  simp only [List.map_map]
   apply List.map_congr_left; intro v _
   apply V3.ext' <;> simp [V3.add, V3.mul] <;> ring
 
@@ -182,23 +181,23 @@ theorem radius_scales_only_on_mul_div {n m : Neuron} {f : Factor} {p : Int} (hk 
 
 /-! ## 4. convert_units -/
 
-/-- **convert_units_spec.** For skeletons, meshes, dotprops with a length unit: the resulting unit has the
-physical value of exactly one target unit on every axis — and is literally `1 <target>` when `to_compact`
-lands on the target prefix —, physical coordinates and connectors are preserved, radii too for isometric
-units, name and id are kept. -/
+/-- **convert_units_spec.** For skeletons, meshes, dotprops with a length unit (isometric or per axis): the resulting
+unit has the physical value of exactly one target unit on every axis — and is literally `1 <target>` when
+`to_compact` lands on the target prefix —, physical coordinates and connectors are preserved, radii too (radius ×
+x-unit: for per-axis units the radius column is converted like x, navis 549685a), name and id are kept. -/
 theorem convert_units_spec {n m : Neuron} {tgt p : Int} (hk : n.kind ≠ .voxel)
     (h : convertUnits n tgt p = some m) :
     m.units.phys = V3.rep (pow10 tgt) ∧ (p = tgt → m.units = ⟨V3.rep 1, .metre tgt⟩) ∧
       physPts m = physPts n ∧ physConns m = physConns n ∧
-      (n.units.iso = true → physRadii m = physRadii n) ∧ m.name = n.name ∧ m.id = n.id :=
+      physRadii m = physRadii n ∧ m.name = n.name ∧ m.id = n.id :=
   convert_spec hk h
 
-/-- `convert_units` is defined for every mesh / dotprops with non-zero length units (per-axis included) and
-every skeleton with isometric ones. -/
+/-- `convert_units` is defined for every skeleton, mesh and dotprops with non-zero length units, per-axis units
+included (skeletons since navis 549685a: `TreeNeuron.__mul__` accepts the x/y/z array of conversion factors). -/
 theorem convert_units_defined {n : Neuron} {tgt p e : Int} (hk : n.kind ≠ .voxel)
-    (hb : n.units.base = .metre e) (hnz : n.units.mag.nz = true) (ht : n.kind = .tree → n.units.iso = true) :
+    (hb : n.units.base = .metre e) (hnz : n.units.mag.nz = true) :
     (convertUnits n tgt p).isSome = true :=
-  convert_isSome hk hb hnz ht
+  convert_isSome hk hb hnz
 
 /-- Dimensionless neurons cannot be converted (pint raises `DimensionalityError`). -/
 theorem convert_units_dimensionless (n : Neuron) (tgt p : Int) (h : n.units.base = .dimless) :
@@ -218,7 +217,7 @@ theorem map_units_physical {n : Neuron} {a r : Rat} {e : Int} (h : mapUnits n (.
   intro d
   obtain ⟨hd, _, hr⟩ := mapUnits_qty h
   obtain ⟨en, hb⟩ := not_dimensionless hd
-  obtain ⟨_, h1, h2⟩ := roundSmart_spec hr
+  obtain ⟨h1, h2⟩ := roundSmart_spec hr
   have hP : 0 < n.units.phys.x := by
     simp only [Units.phys, V3.mul, V3.rep]; exact mul_pos hm (scale_pos _)
   have hq : mapRatio n.units a e * n.units.phys.x = a * pow10 e := by
@@ -235,16 +234,14 @@ theorem map_units_physical {n : Neuron} {a r : Rat} {e : Int} (h : mapUnits n (.
 /-- **map_units_exact.** When the exact ratio has no more decimals than `round_smart` keeps (the usual case:
 `'5 microns'` on an `8 nm` neuron is `625`), the mapping is exact: result × neuron unit = the length. -/
 theorem map_units_exact {n : Neuron} {a : Rat} {e en : Int} (hb : n.units.base = .metre en)
-    (hiso : n.units.iso = true) (hm : 0 < n.units.mag.x) (ha : 0 < a) (z : Int)
+    (hiso : n.units.iso = true) (hm : 0 < n.units.mag.x) (z : Int)
     (hz : mapRatio n.units a e * (10 : Rat) ^ smartDecimals (mapRatio n.units a e) = z) :
     ∃ r, mapUnits n (.qty a (.metre e)) = some r ∧ r * n.units.phys.x = a * pow10 e := by
   have hP : 0 < n.units.phys.x := by
     simp only [Units.phys, V3.mul, V3.rep]; exact mul_pos hm (scale_pos _)
-  have hq : 0 < mapRatio n.units a e := by
-    rw [mapRatio_metre hb]; exact div_pos (mul_pos ha (pow10_pos e)) hP
   refine ⟨mapRatio n.units a e, ?_, ?_⟩
   · simp only [mapUnits, Units.dimensionless, hb, hiso]
-    exact roundSmart_exact hq z hz
+    exact roundSmart_exact z hz
   · rw [mapRatio_metre hb]; field_simp
 
 /-- **map_units_unit_independent.** The mapping depends on the neuron only through the *physical* value of
@@ -260,20 +257,28 @@ theorem map_units_unit_independent {n1 n2 : Neuron} {e1 e2 : Int} (h1 : n1.units
     | metre e =>
       simp only [mapUnits, Units.dimensionless, h1, h2, hiso, mapRatio_metre h1, mapRatio_metre h2, hp]
 
-/-- **map_units_nonpositive_raises (known finding, for all inputs).** As written, `to_neuron_space` hands the ratio
-to `round_smart`, whose `math.log10` raises for a ratio `≤ 0`: on every neuron with isometric units of positive size a
-length of zero (`'0 nm'`) or below is rejected (`ValueError: math domain error`) although the plain number `0` passes
-through — so `heal_skeleton(max_dist='0 nm')`, `prune_twigs(x, '0 um')` … never reach their code. -/
-theorem map_units_nonpositive_raises {n : Neuron} {a : Rat} {e en : Int} (hb : n.units.base = .metre en)
-    (hiso : n.units.iso = true) (hm : 0 < n.units.mag.x) (ha : a ≤ 0) :
-    mapUnits n (.qty a (.metre e)) = none ∧ mapUnits n (.number a) = some a := by
-  refine ⟨?_, rfl⟩
-  have hP : 0 < n.units.phys.x := by
-    simp only [Units.phys, V3.mul, V3.rep]; exact mul_pos hm (scale_pos _)
-  have hq : mapRatio n.units a e ≤ 0 := by
-    rw [mapRatio_metre hb]
-    exact div_nonpos_of_nonpos_of_nonneg (mul_nonpos_of_nonpos_of_nonneg ha (le_of_lt (pow10_pos e))) (le_of_lt hP)
-  simp [mapUnits, Units.dimensionless, hb, hiso, roundSmart, hq]
+/-
+History: up to navis df8a1f3 `utils.round_smart` started with `math.log10(num)`, so `to_neuron_space` raised
+`ValueError: math domain error` for every length of zero or below (`'0 nm'`, `'-5 nm'`) although the plain numbers pass
+through (then stated as `map_units_nonpositive_raises`).  Repaired in navis 0b634c2 (zero has no digits before the
+decimal, the sign is ignored when counting them); the model follows the repaired code and the positive statement holds.
+-/
+
+/-- **map_units_nonpositive.** On every neuron with isometric length units a length string / quantity of *any* sign
+is mapped: zero of any unit is `0` — the same as the plain number `0` —, and a negative length maps like the
+positive one with the sign kept (so `heal_skeleton(max_dist='0 nm')`, `prune_twigs(x, '0 um')` … reach their code). -/
+theorem map_units_nonpositive {n : Neuron} {e en : Int} (hb : n.units.base = .metre en) (hiso : n.units.iso = true)
+    (a : Rat) :
+    (mapUnits n (.qty a (.metre e))).isSome = true ∧
+    mapUnits n (.qty 0 (.metre e)) = some 0 ∧ mapUnits n (.number 0) = some 0 ∧
+    mapUnits n (.qty (-a) (.metre e)) = (mapUnits n (.qty a (.metre e))).map (fun r => -r) := by
+  have hneg : mapRatio n.units (-a) e = -(mapRatio n.units a e) := by
+    simp only [mapRatio, hb]; ring
+  have hz : mapRatio n.units 0 e = 0 := by simp [mapRatio, hb]
+  refine ⟨?_, ?_, rfl, ?_⟩
+  · simp [mapUnits, Units.dimensionless, hb, hiso, roundSmart]
+  · simp only [mapUnits, Units.dimensionless, hb, hiso, hz]; exact roundSmart_zero
+  · simp only [mapUnits, Units.dimensionless, hb, hiso, hneg]; exact roundSmart_neg _
 
 /-- Plain numbers pass through; dimensionless or non-isometric neurons reject quantities. -/
 theorem map_units_guards (n : Neuron) (v a : Rat) (b : Base) :
@@ -284,10 +289,14 @@ theorem map_units_guards (n : Neuron) (v a : Rat) (b : Base) :
   · intro h; simp [mapUnits, h]
   · intro h; simp [mapUnits, h]
 
-/-- `round_smart` stays within half a unit of the last decimal it keeps. -/
+/-- `round_smart` is defined for every number (navis 0b634c2) and stays within half a unit of the last decimal it
+keeps. -/
 theorem round_smart_bound {q r : Rat} (h : roundSmart q = some r) :
-    0 < q ∧ q - 1 / (2 * (10 : Rat) ^ smartDecimals q) ≤ r ∧ r ≤ q + 1 / (2 * (10 : Rat) ^ smartDecimals q) :=
+    q - 1 / (2 * (10 : Rat) ^ smartDecimals q) ≤ r ∧ r ≤ q + 1 / (2 * (10 : Rat) ^ smartDecimals q) :=
   roundSmart_spec h
+
+theorem round_smart_total (q : Rat) : (roundSmart q).isSome = true ∧ roundSmart (-q) = (roundSmart q).map (fun r => -r) :=
+  ⟨roundSmart_isSome q, roundSmart_neg q⟩
 
 /-! ## 6. unit spellings are normalised equivalently -/
 
@@ -492,7 +501,8 @@ object.  `applyFact` (Model/UnitsSpec.lean) interprets a row on the C15 neuron m
 hand-written `mul / div / add / sub` implement: coordinates (and `radius` for skeletons when scaling) and
 connectors rewritten with the operator, units rescaled with the *inverse* operator and compacted (voxels: the same
 operator — the known deviation), `+`/`-` leave radii and units alone, skeletons demand 4 (scaling) / 3 (shift)
-components and drop the 4th before the connectors. -/
+components — 3 scaling components are padded with the x component for the radius (navis 549685a) — and drop the 4th
+before the connectors. -/
 theorem gen_operator_table : Gen.Units.opFacts.map factCore = expectedTable := by decide
 
 /-- **operators_as_extracted.** For every extracted row `f` of class `k` and operator `op`, every neuron of that
@@ -560,15 +570,27 @@ example : mapUnits exTree (.qty 5 (.metre (-6))) = some 625 := by decide +kernel
 -- `8 nm` → `um`: unit is `1 um`, x of node 2 is 4·8/1000
 example : (convertUnits exTree (-6) (-6)).map (fun m => (m.units, m.pts.map (·.x))) =
     some (⟨V3.rep 1, .metre (-6)⟩, [0, 4 * 8 / 1000, 4 * 8 / 1000]) := by decide +kernel
--- operand shapes that raise: 3-vectors on skeletons, 4-vectors on meshes, zero factors, 4-vector offsets
-example : mul exTree (.v3 ⟨2, 4, 8⟩) (-9) = none ∧ mul exTree (.v3 ⟨2, 2, 2⟩) (-9) = none ∧
-    mul exMeshAniso (.v4 ⟨2, 4, 8⟩ 2) (-9) = none ∧ mul exTree (.s 0) (-9) = none ∧
+-- operand shapes that raise: 4-vectors on meshes, zero factors, 4-vector offsets
+example : mul exMeshAniso (.v4 ⟨2, 4, 8⟩ 2) (-9) = none ∧ mul exTree (.s 0) (-9) = none ∧
     add exTree (.v4 ⟨1, 2, 3⟩ 4) = none := by decide +kernel
+-- x/y/z operands on a skeleton (navis 549685a): the radius follows x
+example : (mul exTree (.v3 ⟨2, 4, 8⟩) (-9)).map (fun m => (m.radii, m.units.mag)) =
+    some ([2 / 100, 2 / 100, 2 / 50], ⟨4, 2, 1⟩) := by decide +kernel
 
-/-- **convert_units_tree_anisotropic_raises (witness, known finding).** A skeleton with per-axis units cannot
-be converted: `convert_units` multiplies by a 3-vector, which `TreeNeuron.__mul__` rejects. -/
-theorem convert_units_tree_anisotropic_raises :
-    convertUnits { exTree with units := ⟨⟨4, 4, 40⟩, .metre (-9)⟩ } (-6) (-6) = none := by decide +kernel
+/-
+History: up to navis df8a1f3 `TreeNeuron.__mul__` accepted only numbers and 4-vectors, so `convert_units` (which
+multiplies by the x/y/z array of conversion factors) raised for every skeleton with per-axis units (then the witness
+`convert_units_tree_anisotropic_raises`).  Repaired in navis 549685a (3 multipliers are x/y/z, the radius is scaled
+like x); the model follows the repaired code.
+-/
+
+/-- **convert_units_tree_anisotropic (witness).** A skeleton with units `(4, 4, 40) nm` converts to `1 um` on every
+axis: `z` is scaled ten times as much as `x`, `y`; the radius like `x`. -/
+theorem convert_units_tree_anisotropic :
+    (convertUnits { exTree with units := ⟨⟨4, 4, 40⟩, .metre (-9)⟩ } (-6) (-6)).map
+      (fun m => (m.units, m.pts, m.radii)) =
+    some (⟨V3.rep 1, .metre (-6)⟩, [⟨0, 0, 0⟩, ⟨4 * 4 / 1000, 0, 0⟩, ⟨4 * 4 / 1000, 3 * 4 / 1000, 5 * 40 / 1000⟩],
+          [1 / 100 * (4 / 1000), 1 / 100 * (4 / 1000), 1 / 50 * (4 / 1000)]) := by decide +kernel
 
 /-- **rewrap_witness.** On the `8 nm` skeleton: `TreeNeuron(x)` and the `prune_distal_to` flow keep `8 nm`;
 `TreeNeuron(x, units='1 um')` gives `1 um`; a bare table gives `1 dimensionless`, a table with
@@ -589,36 +611,23 @@ theorem voxel_scale_not_invariant :
     (mul exVoxel (.s 2) (-9)).map (fun m => m.units.mag) = some (V3.rep 16) := by decide +kernel
 
 /-- **voxel_convert_units_wrong (witness, known finding).** `convert_units('um')` on an `8 nm` VoxelNeuron
-yields units of physical value `6.4e-11 m` (64 pm) — neither `1 um` nor the original voxel size. -/
+yields a voxel size of `0.064 nm` (64 pm) — neither `um` nor the original voxel size. -/
 theorem voxel_convert_units_wrong :
-    (convertUnits exVoxel (-6) (-12)).map (fun m => m.units) = some ⟨V3.rep 64, .metre (-12)⟩ := by decide +kernel
+    (convertUnits exVoxel (-6) (-12)).map (fun m => m.units) = some ⟨V3.rep (64 / 1000), .metre (-9)⟩ := by decide +kernel
 
-/-- **voxel_compact_mixes_prefixes (witness, known finding).** `x * 1000` on an `8 nm` VoxelNeuron with
-offset 10: `to_compact` turns the voxel size into `8 um` while offset and connectors stay numerically in nm
-(`10000`), so world coordinates are no longer the old ones times 1000. -/
-theorem voxel_compact_mixes_prefixes :
-    (mul exVoxel (.s 1000) (-6)).map worldPts ≠ some ((worldPts exVoxel).map (fun c => c.mul (V3.rep 1000))) := by
+/-
+History: up to navis df8a1f3 `VoxelNeuron.__mul__/__truediv__` applied `to_compact()` to the scaled voxel size; `x * 1000`
+on an `8 nm` neuron with offset 10 gave a voxel size of `8 um` with offset and connectors still numerically in nm
+(witness `voxel_compact_mixes_prefixes`).  Repaired in navis 881c0e3; the model follows the repaired code.
+-/
+
+/-- **voxel_scale_keeps_prefix (witness).** `x * 1000` on the `8 nm` VoxelNeuron with offset `(10, 20, 30)`: voxel size
+`8000 nm`, offset `(10000, 20000, 30000)` nm, world coordinates exactly the old ones times 1000. -/
+theorem voxel_scale_keeps_prefix :
+    (mul exVoxel (.s 1000) (-6)).map (fun m => (m.units, m.offset)) =
+      some (⟨V3.rep 8000, .metre (-9)⟩, ⟨10000, 20000, 30000⟩) ∧
+    (mul exVoxel (.s 1000) (-6)).map worldPts = some ((worldPts exVoxel).map (fun c => c.mul (V3.rep 1000))) := by
   decide +kernel
-
-
--- the seeded change `exclude=['classify_nodes', '_igraph', '_graph_nx']` as a witness: with that exclude list the
--- cached graph survives `x / 125` and the view returns the OLD weights (12642 µm instead of 101 µm in the demo)
-example : (clearCache Gen.Units.treeTempAttr ["classify_nodes", "_igraph", "_graph_nx"]
-    [("_igraph", [⟨0, 0, 0⟩, ⟨3, 4, 0⟩]), ("_cable_length", [])]).map (·.1) = ["_igraph"] := by decide
-example : (clearCache Gen.Units.treeTempAttr ["classify_nodes"]
-    [("_igraph", [⟨0, 0, 0⟩, ⟨3, 4, 0⟩]), ("_cable_length", [])]).map (·.1) = [] := by decide
-
-/-- 3-node skeleton of `exTree` with its topology; warm everything, `/ 125` (8 nm → 1 µm), warm, `* 2`, `+ 4` -/
-def exSkel : Skel := ⟨exTree, [-1, 0, 1], []⟩
-def exHist : List Step :=
-  [.warm ["_igraph", "_graph_nx", "_geodesic_matrix", "_cable_length", "_simple"], .scale true (.s 125) (-6),
-   .warm ["_igraph"], .scale false (.s 2) (-9), .shift false (.v3 ⟨4, 0, 0⟩)]
-
-example : (runHist exSkel exHist).isSome = true := by decide +kernel
-example : exactEdges exSkel = false := by decide +kernel      -- (0,3,5) has irrational length …
-example : (runHist ⟨{ exTree with pts := [⟨0, 0, 0⟩, ⟨4, 0, 0⟩, ⟨4, 3, 4⟩] }, [-1, 0, 1], []⟩ exHist).map
-    (fun s' => (exactEdges s', viewW elen s' "_igraph", s'.nrn.units)) =
-    some (true, [0, 4 / 125 * 2, 5 / 125 * 2], ⟨V3.rep 500, .metre (-9)⟩) := by decide +kernel
 
 end Examples
 
